@@ -131,6 +131,10 @@ fn gen(prop: &str, rng: &mut Rng, n: u64, tier: &str) -> Vec<T> {
             // utxo validation off (fake coins): only the processed-ids property is stated for it
             9 => if prop == "C06" { world::F_NOFORBID } else { 0 },
             8 => world::F_EXACTGAS,
+            // C03: forced (relayed) transactions use gas before the first request to the source, so the
+            // request must carry block_gas_limit - used_gas (seeded change C03-1)
+            1 if prop == "C03" => world::F_RELAYER,
+            2 if prop == "C03" => world::F_RELAYER | world::F_TINYGAS,
             0 | 1 | 2 => 0,
             3 => world::F_TINYGAS,
             4 => world::F_BADRECIPIENT,
